@@ -1,11 +1,14 @@
 (* C10 — Linear solvers and sparse products return correct solutions or fail loudly.
-   Statements only; proofs in Proofs/Solver.v and Proofs/BSR.v.  Real arithmetic (exact), vectors are
+   Statements only; proofs in Proofs/Solver.v, Proofs/Solver2.v (linear dependence), Proofs/Solver3.v
+   (conjugate gradients: orthogonality, conjugacy, finite termination), Proofs/Solver4.v (direct
+   solvers: contract instances, Cholesky on non-symmetric input), Proofs/Solver5.v (2 x 2 Cholesky
+   oracles), Proofs/BSR.v, Proofs/BSR2.v.  Real arithmetic (exact), vectors are
    lists, matrices lists of rows.  torch.linalg.{pinv, lstsq, cholesky_ex}, Tensor.cholesky_solve are
    arbitrary functions constrained by the displayed contracts (hypotheses about torch: measured by the
    correspondence, not proved). *)
 From Coq Require Import Reals List Arith ZArith Bool.
 Import ListNotations.
-From PV Require Import Base.Num Model.Solver Model.BSR Proofs.Solver Proofs.BSR.
+From PV Require Import Base.Num Model.Solver Model.BSR Proofs.Solver Proofs.BSR Proofs.Solver3 Proofs.Solver4 Proofs.Solver5 Proofs.BSR2.
 Local Open Scope R_scope.
 #[local] Remove Hints NumQ NumZ : typeclass_instances.
 
@@ -47,6 +50,41 @@ Proof. intros n ce cs H. exact (cholesky_batch_raises n ce cs H). Qed.
 (* the contracts are satisfiable (1 x 1 systems: sqrt / division) *)
 Example C10_cholesky_contract_satisfiable : chol_ex_contract 1 chol1 /\ chol_solve_contract 1 solve1.
 Proof. exact (conj chol1_contract solve1_contract). Qed.
+
+(* ... and at n = 2, the first size where triangularity, lower / upper and the transposes in the
+   contract mean something: chol2 = the textbook 2 x 2 factor (info <> 0 unless symmetric, a > 0,
+   det > 0), solve2 = Cramer's rule on L L^T (U^T U), any number of right-hand sides *)
+Example C10_cholesky_contract_satisfiable_2x2 :
+  chol_ex_contract 2 chol2 /\ chol_solve_contract 2 solve2 /\
+  forall up, exists X, Cholesky chol2 solve2 up A2 [[1]; [0]] = Some (inject X) /\ wf_mat 2 1 X /\ mm A2 X = [[1]; [0]].
+Proof. exact (conj chol2_contract (conj solve2_contract cholesky_2x2_example)). Qed.
+(* The contract above asks "A not SPD -> info <> 0" of EVERY square A.  LAPACK (behind cholesky_ex)
+   reads one triangle only, so on non-symmetric A it offers less; what it offers is the same contract
+   for SYMMETRIC A (chol_ex_contract_sym).  The wrapper theorem needs no more, for symmetric A: *)
+Theorem C10_cholesky_wrapper_sym : forall n cholesky_ex cholesky_solve,
+  chol_ex_contract_sym n cholesky_ex -> chol_solve_contract n cholesky_solve ->
+  forall up (A b : mat (F:=R)) k, wf_mat n n A -> symmetric n A -> wf_mat n k b ->
+  (SPD n A -> exists X, Cholesky cholesky_ex cholesky_solve up A b = Some (inject X) /\ wf_mat n k X /\ mm A X = b) /\
+  (~ SPD n A -> Cholesky cholesky_ex cholesky_solve up A b = None).
+Proof. exact cholesky_wrapper_sym. Qed.
+Example C10_cholesky_contract_sym_satisfiable :
+  chol_ex_contract_sym 1 chol1 /\ forall n ce, chol_ex_contract n ce -> chol_ex_contract_sym n ce.
+Proof. exact (conj chol1_contract_sym chol_ex_contract_weaken). Qed.
+(* REFUTED for non-symmetric A (not part of the property's "symmetric positive-definite" success clause,
+   but part of "raises ... when A is not positive definite" if read for arbitrary square A):
+   from any oracles satisfying the symmetric contract, the oracle that reads only the lower triangle
+   satisfies it too, and with it forward() returns X = (1,1) for A = [[1,5],[0,1]], b = (1,1) although
+   x^T A x = -3 at x = (1,-1) and A X - b = (5,0).  Replayed on the implementation (float64,
+   Cholesky()(A, b)): returns (1., 1.), no exception. *)
+Theorem C10_cholesky_nonsymmetric_refuted : forall cholesky_ex cholesky_solve,
+  chol_ex_contract_sym 2 cholesky_ex -> chol_solve_contract 2 cholesky_solve ->
+  exists cholesky_ex',
+    chol_ex_contract_sym 2 cholesky_ex' /\
+    (forall A, wf_mat 2 2 A -> cholesky_ex' false A = cholesky_ex' false (lower_sym 2 A)) /\
+    wf_mat 2 2 Ans /\ ~ PD 2 Ans /\ ~ SPD 2 Ans /\
+    exists X, Cholesky cholesky_ex' cholesky_solve false Ans bns = Some (inject X) /\
+              X = [[1]; [1]] /\ mm Ans X <> bns.
+Proof. exact cholesky_nonsymmetric_refuted. Qed.
 
 (* HISTORY (source before the repair = Cholesky_old: only NaN was asserted, [info] bound and never
    read).  The failure clause was refuted on that faithful model; the witnesses were replayed on the
@@ -121,6 +159,52 @@ Theorem C10_lstsq_batch : forall m n k (lstsq : lstsq_cfg (F:=R) -> mat (F:=R) -
       is_lsq n (nth i As []) (col j (nth i bs [])) (col j (nth i Xs [])).
 Proof. exact lstsq_batch. Qed.
 
+(* "THE": the minimum-norm least-squares solution is unique - whatever vector has that property IS the
+   column PINV returns *)
+Theorem C10_pinv_wrapper_unique : forall m n (pinv : pinv_cfg (F:=R) -> mat (F:=R) -> mat (F:=R)),
+  (forall c A, wf_mat m n A -> penrose m n A (pinv c A)) ->
+  forall c (A b : mat (F:=R)) k j y, wf_mat m n A -> wf_mat m k b -> (j < ncols b)%nat ->
+  is_min_norm_lsq n A (col j b) y -> y = col j (PINV pinv c A b).
+Proof. exact pinv_wrapper_unique. Qed.
+(* batched PINV, the clause itself: every column of every item of the batched result is THE
+   minimum-norm least-squares solution of its system (any batch size, m x n, rank, number of columns) *)
+Theorem C10_pinv_batch : forall m n k (pinv : pinv_cfg (F:=R) -> mat (F:=R) -> mat (F:=R)),
+  (forall c A, wf_mat m n A -> penrose m n A (pinv c A)) ->
+  forall c (As bs : list (mat (F:=R))), Forall (wf_mat m n) As -> Forall (wf_mat m k) bs ->
+  forall i, (i < length As)%nat -> (i < length bs)%nat -> forall j, (j < ncols (nth i bs []))%nat ->
+  is_min_norm_lsq n (nth i As []) (col j (nth i bs [])) (col j (nth i (PINV_batch pinv c As bs) [])).
+Proof. exact pinv_batch. Qed.
+(* the contracts are satisfiable, on rectangular and rank-deficient input: pinv21 [[a],[b]] =
+   [[a, b]] / (a^2 + b^2) (zero for the zero matrix) satisfies the four Penrose equations for EVERY
+   2 x 1 matrix; lstsq11 [[a]] b = b / a (0 when a = 0) is a least-squares solution for EVERY 1 x 1
+   system with any number of right-hand sides *)
+Example C10_pinv_contract_satisfiable :
+  (forall c A, wf_mat 2 1 A -> penrose_mat 2 1 A (pinv21 c A)) /\
+  (forall c A, wf_mat 2 1 A -> penrose 2 1 A (pinv21 c A)).
+Proof. exact (conj pinv21_penrose_mat pinv21_contract). Qed.
+Example C10_lstsq_contract_satisfiable : forall c A b k, wf_mat 1 1 A -> wf_mat 1 k b ->
+  exists X, lstsq11 c A b = inject X /\ forall j, (j < ncols b)%nat -> is_lsq 1 A (col j b) (col j X).
+Proof. exact lstsq11_contract. Qed.
+
+(* POINTWISE forms: the three wrapper theorems need the oracle contracts only at the call that is made
+   (what the correspondence measures: torch's answers on the sampled inputs), not for every matrix;
+   for Cholesky not even triangularity of the factor is needed once the solve answered correctly *)
+Theorem C10_pinv_wrapper_pointwise : forall m n (pinv : pinv_cfg (F:=R) -> mat (F:=R) -> mat (F:=R)) c (A b : mat (F:=R)) k j,
+  wf_mat m n A -> wf_mat m k b -> (j < ncols b)%nat -> penrose m n A (pinv c A) ->
+  is_min_norm_lsq n A (col j b) (col j (PINV pinv c A b)) /\
+  forall y, is_min_norm_lsq n A (col j b) y -> y = col j (PINV pinv c A b).
+Proof. exact pinv_wrapper_pointwise. Qed.
+Theorem C10_lstsq_wrapper_pointwise : forall (lstsq : lstsq_cfg (F:=R) -> mat (F:=R) -> mat (F:=R) -> xmat (F:=R)) c (A b X : mat (F:=R)),
+  lstsq c A b = inject X -> LSTSQ lstsq c A b = Some X.
+Proof. exact lstsq_wrapper_pointwise. Qed.
+Theorem C10_cholesky_wrapper_pointwise : forall n cholesky_ex cholesky_solve up (A b : mat (F:=R)) k,
+  (SPD n A -> exists L, cholesky_ex up A = (inject L, 0%Z) /\ llt up L = A /\
+                exists X, cholesky_solve up b L = inject X /\ wf_mat n k X /\ mm (llt up L) X = b) ->
+  (~ SPD n A -> snd (cholesky_ex up A) <> 0%Z) ->
+  (SPD n A -> exists X, Cholesky cholesky_ex cholesky_solve up A b = Some (inject X) /\ wf_mat n k X /\ mm A X = b) /\
+  (~ SPD n A -> Cholesky cholesky_ex cholesky_solve up A b = None).
+Proof. exact cholesky_wrapper_pointwise. Qed.
+
 (* ---------------------------------------------------------------------------------------------
    CG (norm2 v = sqrt (v . v), the norm the code uses).  A any n x n list-of-rows matrix (symmetry /
    definiteness are not needed for these clauses), optional preconditioner M, optional guess x0. *)
@@ -156,12 +240,59 @@ Proof. exact cg_exit_sound. Qed.
 Theorem C10_cg_zero_rhs : forall (A : mat (F:=R)) M (b : vec (F:=R)) tol maxiter x0,
   Forall (fun t => t = 0) b -> cg norm2 tol maxiter A b x0 M = RetB b.
 Proof. exact cg_zero_rhs. Qed.
-(* The property's clause "returns x with |b - A x| <= tol |b| for SPD A" additionally needs that the
-   tolerance test fires within maxiter = 10 n iterations (exact arithmetic: within n, by conjugacy) and
-   that no division by zero occurs.  That part (cg_terminates_exact) is NOT proved: the clause is
-   covered as exit soundness here and by the correspondence (sizes 1..40, cond <= 1e3) — partial. *)
+(* ---- finite termination in exact arithmetic (Proofs/Solver3.v).  A symmetric positive definite,
+   the preconditioner absent or symmetric positive definite, any n, optional guess.
+   Mop M r = M r (r when M is absent).  The classical invariants hold on the states the modelled loop
+   visits, for every tolerance test and every pair of iterations i < j: *)
+Theorem C10_cg_iterates_orthogonal : forall n (A : mat (F:=R)) M (b : vec (F:=R)),
+  SPD n A -> (forall Mm, M = Some Mm -> SPD n Mm) -> length b = n ->
+  forall conv x0 i j xi ri pvi xj rj pvj, (forall x, x0 = Some x -> length x = n) -> (i < j)%nat ->
+  cg_iter A M conv i (cg_x0 b x0, cg_r0 A b x0, None) = Some (xi, ri, pvi) ->
+  cg_iter A M conv j (cg_x0 b x0, cg_r0 A b x0, None) = Some (xj, rj, pvj) ->
+  dot rj (Mop M ri) = 0 /\ ~ Forall (fun t => t = 0) ri.
+Proof. exact cg_iterates_orthogonal. Qed.
+Theorem C10_cg_directions_conjugate : forall n (A : mat (F:=R)) M (b : vec (F:=R)),
+  SPD n A -> (forall Mm, M = Some Mm -> SPD n Mm) -> length b = n ->
+  forall conv x0 i j xi ri di rhoi xj rj dj rhoj, (forall x, x0 = Some x -> length x = n) -> (i < j)%nat ->
+  cg_iter A M conv (S i) (cg_x0 b x0, cg_r0 A b x0, None) = Some (xi, ri, Some (di, rhoi)) ->
+  cg_iter A M conv (S j) (cg_x0 b x0, cg_r0 A b x0, None) = Some (xj, rj, Some (dj, rhoj)) ->
+  dot dj (mv A di) = 0 /\ 0 < dot di (mv A di).
+Proof. exact cg_directions_conjugate. Qed.
+(* MAIN: b <> 0, tol > 0, an iteration budget > n (the default 10 n is one): no division by zero
+   occurs and forward() returns THROUGH THE TOLERANCE TEST, at an iteration k <= n, an x with
+   |b - A x| < tol |b|.  (n + 1 non-zero pairwise M-orthogonal residuals do not fit into R^n.) *)
+Theorem C10_cg_terminates_exact : forall n (A : mat (F:=R)) M (b : vec (F:=R)),
+  SPD n A -> (forall Mm, M = Some Mm -> SPD n Mm) -> length b = n ->
+  forall tol maxiter x0, ~ Forall (fun t => t = 0) b -> 0 < tol ->
+  (forall x, x0 = Some x -> length x = n) -> (forall mi, maxiter = Some mi -> (n < mi)%nat) ->
+  exists x r k, cg norm2 tol maxiter A b x0 M = RetLoop (CgExit x r k) /\ (k <= n)%nat /\
+    r = vsub b (mv A x) /\ length x = n /\ norm2 (vsub b (mv A x)) < tol * norm2 b.
+Proof. exact cg_terminates_exact. Qed.
+(* the clause of the property, b zero or not: a finite x with |b - A x| <= tol |b| is returned; here a
+   budget of n iterations is enough (the loop may then end by exhaustion - with the zero residual) *)
+Theorem C10_cg_tolerance : forall n (A : mat (F:=R)) M (b : vec (F:=R)),
+  SPD n A -> (forall Mm, M = Some Mm -> SPD n Mm) -> length b = n ->
+  forall tol maxiter x0, 0 < tol ->
+  (forall x, x0 = Some x -> length x = n) -> (forall mi, maxiter = Some mi -> (n <= mi)%nat) ->
+  exists x, cg_value (cg norm2 tol maxiter A b x0 M) = Some x /\ length x = n /\
+    norm2 (vsub b (mv A x)) <= tol * norm2 b.
+Proof. exact cg_tolerance_n. Qed.
+(* the statement that earlier versions of this file could only display *)
 Definition C10_cg_tolerance_full : Prop := forall n (A : mat (F:=R)) (b : vec (F:=R)) tol, SPD n A -> length b = n -> 0 < tol ->
   exists x, cg_value (cg norm2 tol None A b None None) = Some x /\ norm2 (vsub b (mv A x)) <= tol * norm2 b.
+Theorem C10_cg_tolerance_full_holds : C10_cg_tolerance_full.
+Proof.
+  intros n A b tol HA Hb Ht.
+  destruct (cg_tolerance n A None b HA (precond_none n) Hb tol None None Ht) as (x & E & _ & H);
+    [intros ? ?; discriminate|intros ? ?; discriminate|]. exists x. auto.
+Qed.
+(* all hypotheses at once: SPD A = [[2,1],[1,2]], SPD preconditioner diag(1/2,1/2), guess (1,1),
+   b = (1,0), default budget *)
+Example C10_cg_terminates_satisfiable :
+  SPD 2 A2 /\ SPD 2 M2 /\
+  exists x r k, cg norm2 (1 / 100000) None A2 [1; 0] (Some [1; 1]) (Some M2) = RetLoop (CgExit x r k) /\ (k <= 2)%nat /\
+    r = vsub [1; 0] (mv A2 x) /\ length x = 2%nat /\ norm2 (vsub [1; 0] (mv A2 x)) < 1 / 100000 * norm2 [1; 0].
+Proof. exact (conj A2_SPD (conj M2_SPD cg_terminates_example)). Qed.
 (* executable variant used by the correspondence: same function for tol >= 0; one-pass trace *)
 Theorem C10_cg_sq_equiv : forall tol maxiter (A : mat (F:=R)) b x0 M,
   0 <= tol -> cg norm2 tol maxiter A b x0 M = cg_sq tol maxiter A b x0 M.
@@ -183,6 +314,12 @@ Theorem C10_merge_join_correct : forall (crow col ccol row : list nat) (i j : na
   forall k1 k2, In (k1, k2) (cell_matches crow col ccol row i j) <->
                 ((lo1 <= k1 < hi1)%nat /\ (lo2 <= k2 < hi2)%nat /\ nth k1 col O = nth k2 row O).
 Proof. exact merge_join_correct. Qed.
+Example C10_merge_join_satisfiable :
+  let crow := [0; 2]%nat in let col := [0; 2]%nat in let ccol := [0; 2]%nat in let row := [1; 2]%nat in
+  (nth 0 crow 0 <= nth 1 crow 0)%nat /\ (nth 0 ccol 0 <= nth 1 ccol 0)%nat /\
+  sinc col (nth 0 crow O) (nth 1 crow O) /\ sinc row (nth 0 ccol O) (nth 1 ccol O) /\
+  cell_matches crow col ccol row 0 0 = [(1, 1)]%nat.
+Proof. exact merge_join_example. Qed.
 (* bsr_matmul_dense: for every block grid sm x sn x sp, every block shape dm x dn x dp (>= 1) and every
    pair of sparsity patterns - including empty block rows / columns, empty operands and explicitly
    stored zero blocks - the call succeeds and the result, densified, IS the dense product.
@@ -224,3 +361,10 @@ Print Assumptions C10_cg_residual_inv. Print Assumptions C10_cg_returns. Print A
 Print Assumptions C10_cg_zero_rhs. Print Assumptions C10_cg_sq_equiv. Print Assumptions C10_cg_values_spec.
 Print Assumptions C10_merge_join_correct. Print Assumptions C10_bsr_matmul_dense.
 Print Assumptions C10_bsr_matmul_dense_satisfiable. Print Assumptions C10_dispatch_table.
+Print Assumptions C10_cholesky_contract_satisfiable_2x2. Print Assumptions C10_cholesky_wrapper_sym. Print Assumptions C10_cholesky_contract_sym_satisfiable.
+Print Assumptions C10_cholesky_nonsymmetric_refuted.
+Print Assumptions C10_pinv_wrapper_pointwise. Print Assumptions C10_lstsq_wrapper_pointwise.
+Print Assumptions C10_cholesky_wrapper_pointwise. Print Assumptions C10_pinv_wrapper_unique. Print Assumptions C10_pinv_batch. Print Assumptions C10_pinv_contract_satisfiable. Print Assumptions C10_lstsq_contract_satisfiable.
+Print Assumptions C10_cg_iterates_orthogonal. Print Assumptions C10_cg_directions_conjugate.
+Print Assumptions C10_cg_terminates_exact. Print Assumptions C10_cg_tolerance. Print Assumptions C10_cg_tolerance_full_holds.
+Print Assumptions C10_cg_terminates_satisfiable. Print Assumptions C10_merge_join_satisfiable.
